@@ -39,7 +39,7 @@ var IterStops = []string{"StopIteration", "StopIteration()", "StopIteration(77)"
 var IterConsumers = []string{
 	"for", "listcomp", "setcomp", "dictcomp", "genexp", "unpack", "starred", "starcall",
 	"list", "tuple", "set", "sum", "min", "max", "sorted", "zipl", "zipr", "map", "filter", "enumerate", "any", "all", "in", "notin", "join",
-	"forbreak", "nestedfor", "listiter", "whilenext", "nextdefault", "sortedkey", "minkey", "maxkey", "sortedrev", "sumstart", "unpacknested", "forunpack", "listofgen", "anygen", "chainfor", "extend", "iadd", "sliceassign", "minkeyfail", "maxkeyfail", "sortedkeyfail",
+	"forbreak", "nestedfor", "listiter", "whilenext", "nextdefault", "sortedkey", "minkey", "maxkey", "sortedrev", "sumstart", "unpacknested", "forunpack", "listofgen", "anygen", "chainfor", "extend", "iadd", "sliceassign", "minkeyfail", "maxkeyfail", "sortedkeyfail", "starmany", "starmanyshort",
 }
 
 var iterWrappers = []string{"deleg", "map", "filter", "genexp", "zipl", "enum", "deleg", "zip2", "map2"}
@@ -380,6 +380,11 @@ def mkpred(tag, fail, exc):
     return pred
 def fargs(*a):
     return list(a)
+def _chain(a, n):
+    for _v in a:
+        yield _v
+    for _i in range(n):
+        yield 1000 + _i
 def inc(x):
     return x + 1
 def odd(x):
@@ -518,6 +523,22 @@ func consumerBody(c, id, g string, v, tag int) string {
 			return fmt.Sprintf("_a, *_r = %s\nlog(%s, \"starred\", _a, _r)", g, id)
 		}
 		return fmt.Sprintf("*_r, _a = %s\nlog(%s, \"starred\", _a, _r)", g, id)
+	case "starmany", "starmanyshort":
+		// starred unpacking with more than 255 targets after (or before) the star
+		n := 256 + v%3
+		names := make([]string, n)
+		for i := range names {
+			names[i] = fmt.Sprintf("_t%d", i)
+		}
+		src := g
+		if c == "starmany" {
+			src = fmt.Sprintf("_chain(%s, %d)", g, n+2)
+		}
+		lhs := "_a, *_r, " + strings.Join(names, ", ")
+		if v%2 == 1 {
+			lhs = strings.Join(names, ", ") + ", *_r, _a"
+		}
+		return fmt.Sprintf("%s = %s\nlog(%s, \"%s\", _a, _r, _t0, _t1, _t%d)", lhs, src, id, c, n-1)
 	case "starcall":
 		return one(fmt.Sprintf("fargs(*%s)", g))
 	case "list", "tuple", "set", "frozenset", "sum", "min", "max", "sorted", "any", "all":
